@@ -11,10 +11,10 @@ use std::ffi::CString;
 
 pub static DEF: PropDef = PropDef {
     id: "C12",
-    rule: "tier A (matcher behind -name/-path/-lname through the verif-hooks entry point vs glibc fnmatch(3) in locale C.UTF-8, flags 0 and FNM_CASEFOLD): exhaustive over every pattern of <= 4 (thorough 5) symbols from {a b * ? [ ] ! - \\ . /} x every subject of <= 4 symbols from {a b . / - ] NL}; random patterns of <= 16 pieces (literals incl. every regex metacharacter . ^ $ + ( ) { } |, '*', '?', escapes, bracket expressions with ranges, '!' negation, ']' first, character classes [[:alpha:]]..., stray '[' ']' '!', trailing backslash, multi-byte characters) against subjects derived from the pattern (a string that matches by construction and its one-edit neighbours: extra prefix/suffix, changed case, inserted '/', leading '.', embedded newline, dropped character) plus random strings. tier B (end to end): a directory of files named by slash-free subjects and of symbolic links whose targets are arbitrary subjects; find DIR -name|-iname|-path|-ipath|-wholename|-lname|-ilname PAT -print0 in process; the selected set must equal {entries whose basename / printed path / link target fnmatch-es}. tier C (which string is matched): a fixed tree (directories, files, a dot file, links to a file, to a directory, dangling; links as starting points) walked from 29 starting-point spellings (plain, trailing slashes, /., /.., //, ./, '.', through links) under -P/-H/-L with -maxdepth 0/1/2/none; the pattern is a literal / '*'+tail / head+'*' / upper-cased / bracketed / '?' form of a string of one entry (the named string itself, its last ordinary component, whole path, last component, link text, path without trailing slashes, name of the file it resolves to); expected: exactly the entries of the reference walk whose last path component (trailing slashes dropped; '.' and '..' are components) / path as printed / link text (only where the follow mode leaves the entry a link) fnmatch-es. Pairs on which fnmatch reports an error are skipped and counted. Non-trivial = the pattern contains a wildcard or bracket AND a backslash or regex metacharacter, and both a matching and a non-matching subject were tried. Distinct = distinct (pattern, flags) pair.",
+    rule: "tier A (matcher behind -name/-path/-lname through the verif-hooks entry point vs glibc fnmatch(3) in locale C.UTF-8, flags 0 and FNM_CASEFOLD): exhaustive over every pattern of <= 4 (thorough 5) symbols from {a b * ? [ ] ! - \\ . /} x every subject of <= 4 symbols from {a b . / - ] NL}; random patterns of <= 16 pieces (literals incl. every regex metacharacter . ^ $ + ( ) { } |, '*', '?', escapes, bracket expressions with ranges, '!' negation, ']' first, each of the twelve character classes [[:alpha:]] ... [[:xdigit:]] (plain, negated, with further members) paired with each of its ASCII members 1..127, stray '[' ']' '!', an unmatched '[' followed by text of the form [.a.] / [=a=] and regex operators, trailing backslash, multi-byte characters) against subjects derived from the pattern (a string that matches by construction and its one-edit neighbours: extra prefix/suffix, changed case, inserted '/', leading '.', embedded newline, dropped character) plus random strings. tier B (end to end): a directory of files named by slash-free subjects and of symbolic links whose targets are arbitrary subjects; find DIR -name|-iname|-path|-ipath|-wholename|-lname|-ilname PAT -print0 in process; the selected set must equal {entries whose basename / printed path / link target fnmatch-es}. tier C (which string is matched): a fixed tree (directories, files, a dot file, links to a file, to a directory, dangling; links as starting points) walked from 29 starting-point spellings (plain, trailing slashes, /., /.., //, ./, '.', through links) under -P/-H/-L with -maxdepth 0/1/2/none; the pattern is a literal / '*'+tail / head+'*' / upper-cased / bracketed / '?' form of a string of one entry (the named string itself, its last ordinary component, whole path, last component, link text, path without trailing slashes, name of the file it resolves to); expected: exactly the entries of the reference walk whose last path component (trailing slashes dropped; '.' and '..' are components) / path as printed / link text (only where the follow mode leaves the entry a link) fnmatch-es. Pairs on which fnmatch reports an error are skipped and counted. Non-trivial = the pattern contains a wildcard or bracket AND a backslash or regex metacharacter, and both a matching and a non-matching subject were tried. Distinct = distinct (pattern, flags) pair.",
     assumptions: &[
         "glibc fnmatch(3) with flags 0 / FNM_CASEFOLD in locale C.UTF-8 is POSIX fnmatch() for the patterns generated",
-        "not generated / not compared (POSIX leaves them unspecified or implementations legitimately differ): '^' first in a bracket expression, a backslash inside a bracket expression, reversed ranges, collating symbols and equivalence classes, case folding of non-ASCII letters, subjects or patterns that are not valid UTF-8",
+        "not generated / not compared (POSIX leaves them unspecified or implementations legitimately differ): '^' first in a bracket expression, a backslash inside a bracket expression, reversed ranges, collating symbols and equivalence classes inside a matched bracket expression (and, anywhere, ones of more than one character, at which glibc gives up on the whole pattern), case folding of non-ASCII letters, subjects or patterns that are not valid UTF-8",
     ],
     run,
     replay,
@@ -136,11 +136,14 @@ fn features(p: &str) -> Features {
                 }
                 let start = j;
                 let mut closed = None;
+                // only meaningful if this '[' turns out to be matched (else it is a literal and the
+                // text after it is scanned again on its own)
+                let mut collating = false;
                 while j < c.len() {
                     if c[j] == '[' && j + 1 < c.len() && matches!(c[j + 1], ':' | '.' | '=') {
                         let d = c[j + 1];
                         if d != ':' {
-                            f.excluded.get_or_insert("collating symbol or equivalence class");
+                            collating = true;
                         } else {
                             let rest: String = c[j + 2..].iter().collect();
                             const NAMES: &[&str] = &["alpha:]", "digit:]", "alnum:]", "upper:]", "lower:]", "space:]", "blank:]", "punct:]", "print:]", "graph:]", "cntrl:]", "xdigit:]"];
@@ -159,6 +162,12 @@ fn features(p: &str) -> Features {
                             k += 1;
                         }
                         if found {
+                            if d != ':' && k != j + 3 {
+                                // glibc gives up on the whole pattern (FNM_NOMATCH) at a collating
+                                // element of more than one character, even where the enclosing '['
+                                // turns out to be unmatched and hence a literal
+                                f.excluded.get_or_insert("collating symbol of more than one character");
+                            }
                             j = k + 2;
                             continue;
                         } else {
@@ -176,6 +185,9 @@ fn features(p: &str) -> Features {
                 match closed {
                     Some(end) => {
                         f.bracket = true;
+                        if collating {
+                            f.excluded.get_or_insert("collating symbol or equivalence class");
+                        }
                         let inner = &c[start..end];
                         if inner.contains(&'\\') || c[i + 1..start].contains(&'\\') {
                             f.excluded.get_or_insert("backslash inside bracket expression");
@@ -413,7 +425,31 @@ enum Piece {
 
 fn gen_piece(g: &mut Gen) -> Piece {
     const LITS: &[char] = &['a', 'b', 'c', 'A', 'Z', 'x', '0', '9', '.', '^', '$', '+', '(', ')', '{', '}', '|', '-', '_', ' ', '/', 'é', '日', ',', '~', '@', '#', '%', '&', '=', ':', ';', '<', '>', '\'', '"'];
-    match g.weighted(&[10, 3, 3, 2, 5, 1, 1]) {
+    match g.weighted(&[10, 3, 3, 2, 5, 1, 1, 3]) {
+        7 => {
+            // a character class with one of its ASCII members (every class, every member)
+            const CLASSES: &[(&str, unsafe extern "C" fn(libc::c_int) -> libc::c_int)] = &[
+                ("alpha", libc::isalpha),
+                ("digit", libc::isdigit),
+                ("alnum", libc::isalnum),
+                ("upper", libc::isupper),
+                ("lower", libc::islower),
+                ("space", libc::isspace),
+                ("blank", libc::isblank),
+                ("punct", libc::ispunct),
+                ("print", libc::isprint),
+                ("graph", libc::isgraph),
+                ("cntrl", libc::iscntrl),
+                ("xdigit", libc::isxdigit),
+            ];
+            let (name, is) = g.pick(CLASSES);
+            let neg = g.chance(1, 3);
+            let all: Vec<char> = (1u8..128).filter(|b| (unsafe { is(*b as libc::c_int) } != 0) != neg).map(|b| b as char).collect();
+            let hit = all[g.below(all.len() as u64) as usize];
+            let extra = g.pick(&["", "", "_", "a", "0-9"]);
+            // negation is spelled in the member text; `Set`'s own flag stays off so that `hit` is used
+            Piece::Set(format!("{}[:{name}:]{extra}", if neg { "!" } else { "" }), hit, false)
+        }
         0 => Piece::Lit(g.pick(LITS)),
         1 => Piece::Any,
         2 => Piece::Star,
@@ -434,7 +470,7 @@ fn gen_piece(g: &mut Gen) -> Piece {
             Piece::Set(members, hit, neg)
         }
         5 => Piece::StrayOpen,
-        _ => Piece::Raw(g.pick(&["]", "!", "[!", "[]", "[a", "-]", "[[]", "[[]x", "[a[]", "[[:alpha:]", "[[:foo:]]", "[!]]", "[]-a]"])),
+        _ => Piece::Raw(g.pick(&["]", "!", "[!", "[]", "[a", "-]", "[[]", "[[]x", "[a[]", "[[:alpha:]", "[[:foo:]]", "[!]]", "[]-a]", "[[.a.]", "[[=a=]", "[[.a.]*", "[[=a=]\\{2\\}", "[[.x.]\\(.\\)\\1", "[[=.=]$"])),
     }
 }
 
@@ -478,7 +514,16 @@ fn gen_random(g: &mut Gen) -> PatCase {
             }
             Piece::Raw(r) => {
                 pattern.push_str(r);
-                member.push_str(r);
+                // an unmatched '[' is a literal and what follows it is a pattern of its own
+                member.push_str(match *r {
+                    "[[.a.]" => "[a",
+                    "[[=a=]" => "[=",
+                    "[[.a.]*" => "[.zz",
+                    "[[=a=]\\{2\\}" => "[a{2}",
+                    "[[.x.]\\(.\\)\\1" => "[x(.)1",
+                    "[[=.=]$" => "[.$",
+                    r => r,
+                });
             }
         }
     }
@@ -505,7 +550,7 @@ fn gen_random(g: &mut Gen) -> PatCase {
         v.insert(k, g.pick(&['/', '\n', 'a', '.', ']', '[', '\\', '*']));
         subjects.push(v.iter().collect());
         let mut v = chars.clone();
-        v[k] = g.pick(&['a', 'B', '/', '\n', '.', '-', ']', '9']);
+        v[k] = if g.bool() { g.pick(&['a', 'B', '/', '\n', '.', '-', ']', '9']) } else { (1 + g.below(127) as u8) as char };
         subjects.push(v.iter().collect());
     }
     subjects.push(pattern.clone());
